@@ -95,7 +95,13 @@ def run(ctx):
         body = [f] + closures_rec(F, f)
         if not dur or not clk or not any(g.calls_to("Clock::now") for g in body):
             continue
-        calc.append(f)
+        # a step of the computation extracted into a private helper (`ttl.expiry_from(now)`, `ttl.halved()`) is the
+        # computation's own
+        import inline
+        f_orig = f
+        f = inline.expand(F, f, lambda n_: "Clock" in n_)
+        body = [f] + closures_rec(F, f_orig)
+        calc.append(f_orig)
         # (a) every time source is the given clock's now(); (b) the deadline is that now plus something made of the
         # given time-to-live (directly, or an element of an iterator built from it: halving until the sum fits)
         bad = []
@@ -150,15 +156,25 @@ def run(ctx):
                             ctx.check(ok, "R09.3", "%s|ctor-expiry-from-ttl" % gn_, "constructor stores Some(clock.now() + ttl) built from its own ttl and clock parameters", where_, fmt(e))
         # field writes of the expiry
         if f.argc >= 1 and sv_short in f.locals[1]["ty"]:
-            for (b, i, tgt, rv, st) in f.stores():
-                if tgt == ("field", ("param", 1), L.EXP):
-                    n_sites += 1
-                    if rv[0] == "agg" and rv[2] == "None":
-                        ctx.ok("R09.3", "%s|write-none" % n, "expiry cleared", f.where(b, i))
-                    else:
+            raw = [(b, i) for (b, i, tgt, rv, st) in f.stores() if tgt == ("field", ("param", 1), L.EXP)]
+            if raw and f.kind != "Closure":
+                # every value the expiry can take on a path (combinators and closures run by sym.py): cleared, kept, or
+                # Some(computed expiry)
+                from sym import ipaths, noop_store
+                n_sites += len(raw)
+                badw = []
+                n_w = 0
+                for p_ in ipaths(F, f, stop=lambda x: x in calc_names, depth=2):
+                    for tgt, rv, w_ in p_.stores:
+                        if tgt != ("field", ("param", 1), L.EXP) or noop_store(p_, tgt, rv):
+                            continue
+                        n_w += 1
+                        if rv[0] == "agg" and rv[2] == "None":
+                            continue
                         inner = rv[3][0][1] if rv[0] == "agg" and rv[2] == "Some" else None
-                        ok = inner is not None and inner[0] == "call" and inner[1] in calc_names
-                        ctx.check(ok, "R09.3", "%s|write-expiry-from-ttl" % n, "a rewritten expiry is Some(clock.now() + the requested ttl)", f.where(b, i), fmt(rv))
+                        if not (inner is not None and inner[0] == "call" and inner[1] in calc_names):
+                            badw.append(fmt(rv)[:120])
+                ctx.check(not badw and n_w >= 1, "R09.3", "%s|write-expiry-from-ttl" % n, "a rewritten expiry is None (cleared) or Some(clock.now() + the requested ttl)", f.where(raw[0][0], raw[0][1]), "; ".join(sorted(set(badw))[:3]))
     ctx.floor("R09.3", "sites storing an expiry", n_sites, 2)
     # ---- R09.4 clock identity --------------------------------------------------------------------------
     def is_config_clock(g, x):
